@@ -2,6 +2,7 @@ import ScyllaVerif.Model.Util
 import ScyllaVerif.Model.FrameHdr
 import ScyllaVerif.Model.C08Value
 import ScyllaVerif.Model.C08Tablet
+import ScyllaVerif.Model.C08SchemaType
 import ScyllaVerif.Drive.C01
 /-! Line-protocol driver for C08.
 
@@ -307,6 +308,7 @@ def runFrame (w : List String) (impl : String) : String :=
           if !compressed then .ok (h.body, "")
           else if comp == "n" then .error "err ext.nocompression"
           else if comp == "l" ∧ !lz4Guard h.body then .error "err ext.lz4"
+          else if comp == "s" ∧ !snappyGuard h.body then .error "err ext.snap"
           else match implW with
             | _ :: z :: rest =>
               if z.startsWith "z=" then
@@ -315,6 +317,8 @@ def runFrame (w : List String) (impl : String) : String :=
                   -- LZ4: the hand-over must be what `lz4Decomp` accepts (size guard + "never more than declared")
                   if comp == "l" ∧ (lz4Decomp (fun _ => some b) h.body).isNone then
                     .error "REJECT lz4-output-exceeds-declared-size"
+                  else if comp == "s" ∧ (snappyDecomp (fun _ => some b) h.body).isNone then
+                    .error "REJECT snappy-output-exceeds-declared-size"
                   else .ok (b, " " ++ z)
                 | none => .error "REJECT bad-z"
               else if z == "err" ∧ (rest == ["ext.lz4"] ∨ rest == ["ext.snap"]) then .error ("err " ++ " ".intercalate rest)
@@ -416,6 +420,42 @@ def runHeader (bs : Bytes) : String :=
     "hdr err closed cap=" ++ capS (beNat ((bs.drop 5).take 4)) (bs.length - 9)
   | .error k => "hdr err " ++ (k.drop 4).toString ++ " cap=small"
 
+/-! ### `t <utf8 hex|-> <class table|->`: the type strings of the schema tables -/
+
+def nativeDbg : Native → String
+  | .ascii => "Ascii" | .bigint => "BigInt" | .blob => "Blob" | .boolean => "Boolean" | .counter => "Counter"
+  | .decimal => "Decimal" | .double => "Double" | .float => "Float" | .int => "Int" | .timestamp => "Timestamp"
+  | .uuid => "Uuid" | .text => "Text" | .varint => "Varint" | .timeuuid => "Timeuuid" | .inet => "Inet"
+  | .date => "Date" | .time => "Time" | .smallint => "SmallInt" | .tinyint => "TinyInt" | .duration => "Duration"
+
+open ScyllaVerif.C08S in
+mutual
+/-- the `Debug` text of a `PreColumnType` without blanks, UDT names in hex -/
+def preDbg : PreTy → String
+  | .native n => "Native(" ++ nativeDbg n ++ ")"
+  | .list f t => "Collection{frozen:" ++ toString f ++ ",typ:List(" ++ preDbg t ++ ")}"
+  | .set f t => "Collection{frozen:" ++ toString f ++ ",typ:Set(" ++ preDbg t ++ ")}"
+  | .map f k v => "Collection{frozen:" ++ toString f ++ ",typ:Map(" ++ preDbg k ++ "," ++ preDbg v ++ ")}"
+  | .tuple ts => "Tuple([" ++ ",".intercalate (preDbgL ts) ++ "])"
+  | .vector t d => "Vector{typ:" ++ preDbg t ++ ",dimensions:" ++ toString d ++ "}"
+  | .udt f n => "UserDefinedType{frozen:" ++ toString f ++ ",name:" ++ toHex n ++ "}"
+def preDbgL : List PreTy → List String
+  | [] => []
+  | t :: ts => preDbg t :: preDbgL ts
+end
+
+open ScyllaVerif.C08S in
+def runSchemaType (bs : Bytes) (uni : List (Bytes × UCls)) : String :=
+  let s := toStr uni bs
+  let line := match mapStringS s with
+    | .ok t => "ty " ++ preDbg t
+    | .error (.perr rem cause) => s!"err {s.length - rem + 1} {cause}"
+    | .error (.panic site) => "PANIC " ++ site
+    | .error (.fuel w) => "MODEL-FUEL " ++ w
+  if line.utf8ByteSize > 1000 then
+    s!"{(line.take 200).toString}… len={line.utf8ByteSize} h={hex64 (fnv64 line)}"
+  else line
+
 def run (case impl : String) : String :=
   match words case with
   | "f" :: rest => runFrame rest impl
@@ -431,6 +471,10 @@ def run (case impl : String) : String :=
     match parseHex hex with
     | some bs => runPrim name bs
     | none => "bad-case"
+  | ["t", hex, u] =>
+    match (if hex == "-" then some [] else parseHex hex), parseUni u with
+    | some bs, some uni => if utf8ok bs then runSchemaType bs uni else "skip not-utf8"
+    | _, _ => "bad-case"
   | _ => "bad-case"
 
 end ScyllaVerif.Drive.C08
